@@ -16,6 +16,7 @@ structure ClsRow where
   attr : Option Int        -- `getattr(C, n)` when `static` is a Parameter
   value : Option Int       -- `C.param.values().get(n)`
   ser : Option Int         -- `json.loads(C.param.serialize_parameters()).get(n)`
+  attrpid : Option PId     -- `C.param.<n>` (attribute-style access, `Parameters.__getattr__`), identity
   deriving Repr, DecidableEq
 
 structure ClsObs where
@@ -50,6 +51,8 @@ def clsRowOk (n : Name) (r : ClsRow) : Option String :=
     some s!"'{n}': listed in .param = {r.listed} but Parameter attribute reachable = {r.static.isSome}"
   else if r.pid != r.static then
     some s!"'{n}': .param[name] is Parameter #{r.pid} but attribute lookup finds #{r.static}"
+  else if r.attrpid != r.static then
+    some s!"'{n}': .param.<name> is Parameter #{r.attrpid} but attribute lookup finds #{r.static}"
   else if r.pdefault != r.attr then
     some s!"'{n}': .param[name].default = {r.pdefault} but the class attribute is {r.attr}"
   else if r.value != r.attr then
@@ -112,7 +115,7 @@ def clsRowOf (dyn : Bool) (s : St) (c : CId) (n : Name) : ClsRow :=
   let p := aget (nsView s c) n
   let v := if dyn then clsValuesDyn s c n else clsValues s c n
   { listed := p.isSome, pid := p, static := staticAttr s c n, pdefault := nsDefault s c n,
-    attr := clsAttr s c n, value := v, ser := v }
+    attr := clsAttr s c n, value := v, ser := v, attrpid := p }
 
 def clsObsOf (dyn : Bool) (s : St) (names : List Name) (c : CId) : ClsObs :=
   { c := c, order := akeys (nsView s c), rows := names.map (clsRowOf dyn s c) }
